@@ -116,6 +116,20 @@ class EditGen:
         if 'options.late' in self.proj.features and \
            not os.path.exists(self.world.s('options.bfg')):
             kinds += ['create_options'] * 3
+        # the base directory of a search is replaced wholesale by a prepared
+        # one (mv src src-prev; mv src-next src): two steps, usually with a
+        # regeneration in between
+        bases = sorted({st.facts['base'] for st in self.proj.stmts('find')
+                        if st.facts.get('base') and
+                        '/' not in st.facts['base'] and
+                        st.facts['base'] not in self.nocache_dirs and
+                        st.facts.get('kw', {}).get('cache') != 'False' and
+                        os.path.isdir(self.world.s(st.facts['base']))})
+        ready = getattr(self, 'swap_ready', None)
+        if ready and os.path.isdir(self.world.s(ready + '-next')):
+            kinds += ['swap_base'] * 4
+        elif bases and not ready:
+            kinds += ['prepare_swap']
         if rfiles:
             kinds += ['remove_file'] * 4 + ['rename_file'] * 2 + \
                 ['move_file'] * 2 + ['file_to_dir']
@@ -158,6 +172,25 @@ class EditGen:
             line = "{0} = submodule('{0}')\n".format(name)
             return [['write', 'build.bfg', text.replace(line, '')],
                     ['remove', name]], 'remove_submodule'
+        if k == 'prepare_swap':
+            base = rng.choice(bases)
+            self.swap_ready = base
+            nxt = base + '-next'
+            ops = [['mkdir', nxt]]
+            # what the script names explicitly has to exist afterwards too
+            for rel in sorted(self.protected):
+                if rel.startswith(base + '/'):
+                    ops.append(['write', nxt + rel[len(base):],
+                                self.world.read(rel)])
+            new = '{}/{}.c'.format(nxt, self.fresh_name())
+            ops.append(['write', new, G.c_source(new)])
+            return ops, 'prepare_swap'
+        if k == 'swap_base':
+            base = self.swap_ready
+            self.swap_ready = None
+            self.n += 1
+            return [['rename', base, '{}-prev{}'.format(base, self.n)],
+                    ['rename', base + '-next', base]], 'swap_base'
         if k == 'create_options':
             # the project gets an options.bfg only now
             return [['write', 'options.bfg',
